@@ -62,7 +62,17 @@ class CompilerModel:
                 for v in self.flow.pts.get(('R', m.qname), {}):
                     if v[0] == 'inst':
                         produced.add(v[1].split('.', 1)[1])
-        return [c for c in self.body_classes() if c not in produced and c not in BODY_ROLES]
+        out = [c for c in self.body_classes() if c not in produced and c not in BODY_ROLES]
+        # body-like classes (they have a variables property) that only the compiler constructs
+        for m in self.comp.methods.values():
+            for n in own_nodes(m.node):
+                if isinstance(n, ast.Call) and isinstance(n.func, ast.Name):
+                    ci = self._class(n.func.id)
+                    if ci is not None and 'variables' in ci.methods and ci.name not in BODY_ROLES and ci.name not in produced \
+                            and ci.name not in out and ci.module.name in ('yp_generator', 'yp_prolog_visitor') and \
+                            not ci.name.endswith('Term') and ci.name not in ('Atom', 'Functor', 'Clause'):
+                        out.append(ci.name)
+        return out
 
     def is_allocator(self, m):
         """self.X += 1 ; return CONST + str(self.X)"""
@@ -79,7 +89,7 @@ class CompilerModel:
     def body_rules(self):
         if self._rules is not None:
             return self._rules
-        universe = self.body_classes()
+        universe = sorted(set(self.body_classes()) | set(self.marker_classes()))
         cb = self.comp.methods['compile_body']
         child_fields = set()
         for cn in universe:
@@ -95,7 +105,7 @@ class CompilerModel:
         def uni(path):
             last = path.split('.')[-1]
             if path == cb.params[1]:
-                return universe
+                return self.body_classes()
             if last in child_fields and '[' not in last:
                 # a field of a body node holds a body node if some body class reaches it
                 vals = set()
